@@ -243,6 +243,16 @@ func c11Rest(p *Prog, r *Report, lsC11 *Lockset) {
 			}
 		}
 		r.Check("O2s", "spine.FunctionData.UpdateData|returns-persisted-list", !returned, p.InstrPos(call), "the list returned by Updater.UpdateList — the very slice the per-type method has just assigned to the stored object when persisting — is handed to the caller without a copy")
+		// O5: the per-type method is told the store's own persist flag (it assigns the merged list to the stored object
+		// under 'success && persist': a constant true makes a non-persisting update change the store)
+		p.InScope(fn, func() {
+			args := callArgs(&call.Call)
+			if len(args) == 5 && len(fn.Params) >= 6 {
+				got := unwrapIface(substParam(args[1]))
+				want := ssa.Value(fn.Params[2]) // receiver, remoteWrite, persist, …
+				r.Check("O5", "spine.FunctionData.UpdateData|persist-passed-on", got == want, p.InstrPos(call), "Updater.UpdateList receives "+Path(args[1])+" as its persist argument (the function's own persist parameter is required)")
+			}
+		})
 		break
 	}
 
